@@ -22,6 +22,7 @@ package seccomp
 
 import (
 	"fmt"
+	"runtime"
 	"syscall"
 	"unsafe"
 
@@ -65,6 +66,12 @@ func LoadFilter(filter Filter) error {
 	}
 
 	if filter.NoNewPrivs {
+		// no_new_privs is an attribute of the calling thread and the kernel
+		// checks it on the thread that installs the filter, so the goroutine
+		// must not migrate to another thread between the two system calls.
+		runtime.LockOSThread()
+		defer runtime.UnlockOSThread()
+
 		if err = SetNoNewPrivs(); err != nil {
 			return fmt.Errorf("failed to set no_new_privs with prctl: %w", err)
 		}
